@@ -424,6 +424,10 @@ def _rand_dex_model(rng):
              "source": rng.choice([None, "A.java", "é.kt", "x"]), "sfields": [], "ifields": [], "dmethods": [], "vmethods": []}
         c["interfaces"] = c["interfaces"][:2]
         seen_f, seen_m = set(), set()
+        if rng.random() < 0.2:
+            # two fields whose (class + name + type) concatenations coincide: x : LaLb;  and  xLa : Lb;
+            c["ifields"] += [("x", "LaLb;", 0x1), ("xLa", "Lb;", 0x2)]
+            seen_f.update([("x", "LaLb;"), ("xLa", "Lb;")])
         for key, flagsets in (("sfields", [0x8, 0x9, 0x19, 0x1A, 0x4018]), ("ifields", [0x0, 0x1, 0x2, 0x12, 0x84, 0x1010])):
             for _ in range(rng.choice([0, 0, 1, 2, 4, 7])):
                 f = (rng.choice(_IDENT[:13] + ["this$0"]), rtype())
@@ -514,5 +518,19 @@ def generated_dex(U):
             U.ensures("methods of a class by class name", got_m == sorted((me[1], me[2]) for me in w["dmethods"] + w["vmethods"]), cls=w["name"])
             got_f = sorted((x.get_name(), x.get_descriptor()) for x in d.get_encoded_fields_class(w["name"]))
             U.ensures("fields of a class by class name", got_f == sorted((f[1], f[2]) for f in w["sfields"] + w["ifields"]), cls=w["name"])
+        import re as _re
+        for w in want[:2]:
+            for me in (w["dmethods"] + w["vmethods"])[:3]:
+                r = U.call(d.get_encoded_method, "^" + _re.escape(me[1]) + "$")
+                wantn = sorted((x[0], x[1], x[2]) for ww in want for x in ww["dmethods"] + ww["vmethods"] if x[1] == me[1])
+                U.ensures("lookup of encoded methods by name (regular expression) on a freshly parsed file",
+                          r.ok and sorted((x.get_class_name(), x.get_name(), x.get_descriptor()) for x in r.value) == wantn,
+                          name=me[1], got=repr(r.exc) if not r.ok else len(r.value))
+        r = U.call(d.get_method, ".*")
+        U.ensures("lookup of method ids by name (regular expression) does not raise", r.ok, exc=repr(r.exc)[:100])
+        r = U.call(d.get_field, ".*")
+        U.ensures("lookup of field ids by name (regular expression) does not raise", r.ok, exc=repr(r.exc)[:100])
+        U.ensures("a triple that names nothing finds nothing (no key confusion)",
+                  all(d.get_encoded_field_descriptor(f[0] + f[1], "", f[2]) is None for w in want for f in (w["sfields"] + w["ifields"])[:2]))
         U.ensures("lookups of undeclared items return None", d.get_class("Lno/Such;") is None and
                   d.get_encoded_method_descriptor("Lno/Such;", "x", "()V") is None and d.get_encoded_field_descriptor("Lno/Such;", "x", "I") is None)
